@@ -315,6 +315,6 @@ def _get_nbits_from_value( value ):
   if -1 <= value <= 1:
     return 1
   if value < 0:
-    return (abs(value)-1).bit_length()
+    return (abs(value)-1).bit_length() + 1
   else:
     return value.bit_length()
